@@ -163,9 +163,10 @@ def trace_part(chk, S, n_examples):
         f = draw(st.sampled_from([(0, 1), (1, 1), (1, 2), (1, 4), (3, 4), (3, 10), (7, 10), (1, 3), (2, 3), (13, 20), (9, 10),
                                   (1, 10), (1, 100), (99, 100)]))
         f2 = draw(st.sampled_from([(1, 1), (9, 10), (3, 4), (1, 2)]))
+        above = draw(st.sampled_from([0, 0, 1]))        # 1: the fraction is a hair (1e-9) ABOVE fn/fd
         sigma = draw(st.sampled_from([0.0, 0.0, 0.5, 1.0, 2.0, 5.0, 10.0]))      # 0: no smoothing, many exact density ties
         scale = draw(st.sampled_from(['linear', 'log', 'logicle']))
-        return dict(kind=kind, N=N, seed=seed, kx=kx, ky=ky, binspec=binspec, f=f, f2=f2, sigma=sigma, scale=scale)
+        return dict(kind=kind, N=N, seed=seed, kx=kx, ky=ky, binspec=binspec, f=f, f2=f2, sigma=sigma, scale=scale, above=above)
 
     @settings(max_examples=n_examples, deadline=None, database=None, derandomize=True, suppress_health_check=list(HealthCheck))
     @given(case())
@@ -201,17 +202,19 @@ def trace_part(chk, S, n_examples):
             bins = {'count': kx, 'edges': [xe, ye], 'mixture': [kx, ye], 'same-edges': xe if kx >= 2 else [xe, ye]}[c['binspec']]
             kw = {}
         fn, fd = c['f']
-        f = fn / fd
+        above = 1 if (c['above'] and fn < fd) else 0
+        f = fn / fd + (1e-9 if above else 0.0)
         fn2, fd2 = c['f2']
         if fn2 * fd < fn * fd2:
             fn2, fd2 = fn, fd
+        f_2 = fn2 / fd2 + (1e-9 if (above and fn2 < fd2) else 0.0)
         try:
             with warnings.catch_warnings():
                 warnings.simplefilter('ignore')
                 bins_arg = [np.array(b) if hasattr(b, '__iter__') else b for b in bins] if isinstance(bins, list) else bins
                 out = FlowCal.gate.density2d(data, ch, bins=bins_arg, gate_fraction=f, sigma=c['sigma'], full_output=True, **kw)
         except Exception as e:  # noqa
-            recs.append({'k': 'err', 'exc': type(e).__name__, 'kx': 1, 'ky': 1, 'codes': [[1, 1]] * N, 'fn': fn, 'fd': fd, 'nch': 2,
+            recs.append({'k': 'err', 'exc': type(e).__name__, 'kx': 1, 'ky': 1, 'codes': [[1, 1]] * N, 'fn': fn, 'fd': fd, 'above': above, 'nch': 2,
                          'ranks': [[0]], 'binmask': [[False]], 'mask': [False] * N, 'replay': [False] * N, 'perm': [False] * N,
                          'mask2': [True] * N})
             metas.append(dict(c, note='raised ' + type(e).__name__))
@@ -228,14 +231,14 @@ def trace_part(chk, S, n_examples):
             pout = FlowCal.gate.density2d(data[perm], ch, bins=[xe, ye], gate_fraction=f, sigma=c['sigma'], full_output=True)
             inv = np.empty(N, dtype=int)
             inv[perm] = np.arange(N)
-            out2 = FlowCal.gate.density2d(data, ch, bins=[xe, ye], gate_fraction=fn2 / fd2, sigma=c['sigma'], full_output=True)
+            out2 = FlowCal.gate.density2d(data, ch, bins=[xe, ye], gate_fraction=f_2, sigma=c['sigma'], full_output=True)
         except Exception as e:  # noqa
-            recs.append({'k': 'err', 'exc': type(e).__name__, 'kx': 1, 'ky': 1, 'codes': [[1, 1]] * N, 'fn': fn, 'fd': fd, 'nch': 2,
+            recs.append({'k': 'err', 'exc': type(e).__name__, 'kx': 1, 'ky': 1, 'codes': [[1, 1]] * N, 'fn': fn, 'fd': fd, 'above': above, 'nch': 2,
                          'ranks': [[0]], 'binmask': [[False]], 'mask': [False] * N, 'replay': [False] * N, 'perm': [False] * N,
                          'mask2': [True] * N})
             metas.append(dict(c, note='follow-up call raised ' + type(e).__name__))
             return
-        recs.append({'k': 'ok', 'kx': kx2, 'ky': ky2, 'codes': codes, 'fn': fn, 'fd': fd, 'nch': 2,
+        recs.append({'k': 'ok', 'kx': kx2, 'ky': ky2, 'codes': codes, 'fn': fn, 'fd': fd, 'above': above, 'nch': 2,
                      'ranks': ranks_of(codes, kx2, ky2, c['sigma']), 'binmask': np.asarray(out.bin_mask).tolist(),
                      'mask': np.asarray(out.mask).tolist(), 'replay': np.asarray(rep.mask).tolist(),
                      'perm': np.asarray(pout.mask)[inv].tolist(), 'mask2': np.asarray(out2.mask).tolist()})
